@@ -141,7 +141,8 @@ theorem types_expr_exact : ∀ (e : Expr) (σ : State N),
 /-- `process_prefix_expression` (drop type instantiations in prefix position): the FIRST value is the
 same, same state — a prefix position (callee, indexed value) only uses the first value. (As lists of
 values `p<<T>>` (one value) and a multi-value `p` differ, which is why this hook is not an exact step of
-the stage-2 relation: the whole-rule theorem `types_refines` is still a `def … : Prop`.) -/
+the stage-2 relation; the whole-rule theorem `remove_types_refines_lift` below goes through the prefix-aware
+lifting of `C06/LiftOn.lean` instead.) -/
 theorem types_prefix_first : ∀ (e : Expr) (σ : State N),
     trunc call ρ k env (RemoveTypes.processPrefix e) σ = trunc call ρ k env e σ
   | .inst p tys, σ => by
